@@ -164,11 +164,20 @@ class RunTaskExecutable(Operation):
         # The arguments and options are recorded for every execution (also for
         # one that failed), next to the logs of what the command printed.
         if self._serialize_args_options:
-            if not self._args.empty():
-                self._args.serialize_json(self._output_path / EXP_ARGS_JSON_FILE_NAME)
-            if not self._options.empty():
-                self._options.serialize_json(
-                    self._output_path / EXP_OPTION_JSON_FILE_NAME
+            try:
+                if not self._args.empty():
+                    self._args.serialize_json(
+                        self._output_path / EXP_ARGS_JSON_FILE_NAME
+                    )
+                if not self._options.empty():
+                    self._options.serialize_json(
+                        self._output_path / EXP_OPTION_JSON_FILE_NAME
+                    )
+            except OSError as ex:
+                # E.g., the task removed its own output directory. This task
+                # has failed; the rest of the plan can still be processed.
+                raise TaskFailed(task_identifier=self._identifier).add_extra_context(
+                    str(ex)
                 )
 
         assert handle.returncode is not None
